@@ -178,8 +178,45 @@ def check(ctx, rep):
                 if cb not in r:
                     dep.add(name)
         own_dropped = len(drops) == 1 and rt.dominates(drops[0][0], counts[0][0]) and rt.dominates(polls[0][0], drops[0][0])
-        ok = dep >= {'woken', 'count', 'suspended'} and own_dropped
-        detail = 'depends on %s; own Waker dropped before the count: %s' % (sorted(dep), own_dropped)
+        # polarity: Cancelled needs woken == false, result == Suspended, and "no clone but ours": count < 2 (<= 1, == 1)
+        polarity = {}
+
+        def edge_for(sw, want_nonzero):
+            sb, st = sw
+            zero = [b for v, b in st['arms'] if v == 0]
+            return (sb, st['otherwise']) if want_nonzero else ((sb, zero[0]) if zero else None)
+        if 'woken' in guards:
+            e = edge_for(guards['woken'], False)
+            polarity['woken==false'] = e is not None and cb not in rt.reachable_ps([0], removed_edges=[e])
+        if 'suspended' in guards:
+            sb, st = guards['suspended']
+            eqcall = [o for o in origins(rt, st['a']) if o.kind == 'call']
+            is_ne = bool(eqcall) and last_seg(eqcall[0].term['callee']) == 'ne'
+            e = edge_for(guards['suspended'], not is_ne)
+            other_is_suspended = bool(eqcall) and any(x.kind == 'agg' and x.stmt['rv'].get('variant') == 'Suspended'
+                                                      for a in eqcall[0].term['args'] for x in origins(rt, a))
+            polarity['result==Suspended'] = e is not None and other_is_suspended and cb not in rt.reachable_ps([0], removed_edges=[e])
+        if 'count' in guards:
+            sb, st = guards['count']
+            thr = None
+            for o in origins(rt, st['a']):
+                if o.kind == 'rvalue' and o.stmt['rv']['k'] == 'binop':
+                    b_ = o.stmt['rv']
+                    left_is_count = any(x.kind == 'call' and x.bb == counts[0][0] for x in origins(rt, b_['a']))
+                    const = (b_['b'] if left_is_count else b_['a']).get('v')
+                    op = b_['op']
+                    if not left_is_count:
+                        op = {'Lt': 'Gt', 'Le': 'Ge', 'Gt': 'Lt', 'Ge': 'Le'}.get(op, op)
+                    # (edge value when the waker has no other clone, i.e. count == 1) for the accepted spellings
+                    thr = {('Lt', 2): True, ('Le', 1): True, ('Eq', 1): True, ('Ge', 2): False, ('Gt', 1): False, ('Ne', 1): False}.get((op, const))
+            if thr is not None:
+                e = edge_for(guards['count'], thr)
+                polarity['count==1'] = e is not None and cb not in rt.reachable_ps([0], removed_edges=[e])
+            else:
+                polarity['count==1'] = False
+        pol_ok = len(polarity) == 3 and all(polarity.values())
+        ok = dep >= {'woken', 'count', 'suspended'} and own_dropped and pol_ok
+        detail = 'depends on %s; own Waker dropped before the count: %s; evicts only when %s' % (sorted(dep), own_dropped, polarity)
     rep.expect('R07.c', ok, 'eviction-inputs', detail, 'the eviction test in Command::run_task no longer depends on the poll result, the woken '
                'flag and the waker count, or reads the count while its own Waker copy is alive (%s)' % detail)
     # woken is false on a fresh waker and the count is taken on this poll's waker
